@@ -11,6 +11,7 @@ import (
 	"github.com/kubewharf/kubegateway/pkg/clusters"
 	"github.com/kubewharf/kubegateway/pkg/flowcontrols/flowcontrol"
 
+	"verifharness/bed"
 	"verifharness/vkit"
 )
 
@@ -139,8 +140,12 @@ func other(name, near string) string {
 // like the dispatcher: with the user's schema exhausted the unnamed policy's requests are still all admitted, and they
 // never take one of the schema's slots.
 func defaultNameIsolation(r *vkit.R) {
-	const reserved = "system-default"
-	r.Parallel(6, 6, func(i int, _ *vkit.Rand) {
+	r.Parallel(12, 6, func(i int, _ *vkit.Rand) {
+		// the limited schema is literally named like the reported default, or plainly
+		reserved, sigClass := "system-default", "schema-named-system-default"
+		if i >= 6 {
+			reserved, sigClass = hot, "schema-less-policy"
+		}
 		M := int32(1 + i%3)
 		name := fmt.Sprintf("c05defname%d", i)
 		ci := clusters.NewEmptyClusterInfo(name, nil, nil, "", nil)
@@ -175,7 +180,7 @@ func defaultNameIsolation(r *vkit.R) {
 		}}
 		var trace []string
 		report := func(what, text string) {
-			r.Violation("C05/isolation/schema-named-system-default/"+what, text,
+			r.Violation("C05/isolation/"+sigClass+"/"+what, text,
 				map[string]interface{}{"via": h.via, "limit": M, "policies": "P1: resource 'limited' -> schema 'system-default'; P2: resource 'unnamed' -> no schema", "trace": append([]string(nil), trace...)})
 		}
 		// 1. exhaust the user's schema
@@ -204,6 +209,158 @@ func defaultNameIsolation(r *vkit.R) {
 		releaseAllFC(b)
 		r.Eval(1)
 		r.Count("default_name_isolation_cases", 1)
+		r.Count("default_name_isolation_cases_"+sigClass, 1)
 		r.Distinct(vkit.Hash64("defname", fmt.Sprint(i)))
+	})
+}
+
+// twoClustersIsolation: two CLUSTERS carry a schema with the same name (and a policy without schema each). One goroutine,
+// exact counts: whatever happens to one cluster's schema (exhausted, resized, cluster deleted and re-created), the other
+// cluster's schema admits exactly its own limit and its schema-less policy admits everything. Through the real controller
+// (two UpstreamCluster objects) and through two bare limiters.
+func twoClustersIsolation(r *vkit.R) {
+	gw := bed.NewGateway(bed.GatewayOptions{})
+	defer gw.Close()
+	stub := bed.NewStub("c05two")
+	defer stub.Close()
+	u := &user.DefaultInfo{Name: "u"}
+	type kase struct {
+		ma, mb int32
+		ctrl   bool
+	}
+	var list []kase
+	for _, ms := range [][2]int32{{1, 3}, {3, 1}, {2, 2}, {1, 1}} {
+		for _, c := range []bool{true, false} {
+			list = append(list, kase{ma: ms[0], mb: ms[1], ctrl: c})
+		}
+	}
+	r.Parallel(len(list), 4, func(i int, _ *vkit.Rand) {
+		k := list[i]
+		names := [2]string{fmt.Sprintf("c05two%da.test", i), fmt.Sprintf("c05two%db.test", i)}
+		obj := func(c int, max int32) *proxyv1alpha1.UpstreamCluster {
+			rule := func(res string) []proxyv1alpha1.DispatchPolicyRule {
+				return []proxyv1alpha1.DispatchPolicyRule{{Verbs: []string{"*"}, APIGroups: []string{"*"}, Resources: []string{res}}}
+			}
+			return bed.BuildCluster(bed.ClusterSpec{Name: names[c], Servers: []string{stub.URL},
+				Policies: []proxyv1alpha1.DispatchPolicy{{FlowControlSchemaName: hot, Rules: rule(hot)}, {Rules: rule("unnamed")}},
+				Schemas:  []proxyv1alpha1.FlowControlSchema{mifSchema(hot, max)}})
+		}
+		var hs [2]*limHandle
+		var apply func(c int, max int32) bool
+		var del func(c int)
+		via := "controller (two UpstreamCluster objects)"
+		if k.ctrl {
+			for c := 0; c < 2; c++ {
+				c := c
+				hs[c] = &limHandle{via: via, get: func(res string) flowcontrol.FlowControl {
+					ci, ok := gw.Cluster(names[c])
+					if !ok {
+						panic("harness: cluster missing")
+					}
+					p, err := ci.MatchAttributes(&authorizer.AttributesRecord{User: u, Verb: "get", Resource: res, ResourceRequest: true})
+					if err != nil {
+						panic("harness: no policy matches " + res)
+					}
+					return p.FlowControl()
+				}}
+			}
+			apply = func(c int, max int32) bool {
+				sr := gw.Apply(obj(c, max))
+				return sr.Err == nil && sr.Panic == nil && !sr.Requeue
+			}
+			del = func(c int) { gw.Delete(names[c]) }
+			defer del(0)
+			defer del(1)
+		} else {
+			via = "two NewUpstreamLimiter instances"
+			var cur [2]*limHandle
+			apply = func(c int, max int32) bool {
+				if cur[c] == nil {
+					cur[c] = newDirect(names[c])
+					inner := cur[c]
+					hs[c] = &limHandle{via: via, get: func(res string) flowcontrol.FlowControl {
+						if res == "unnamed" {
+							return inner.get("")
+						}
+						return inner.get(res)
+					}}
+				}
+				cur[c].sync(proxyv1alpha1.FlowControl{Schemas: []proxyv1alpha1.FlowControlSchema{mifSchema(hot, max)}})
+				return true
+			}
+			del = func(c int) {
+				if cur[c] != nil {
+					cur[c].close()
+					cur[c] = nil
+				}
+			}
+			defer del(0)
+			defer del(1)
+		}
+		if !apply(0, k.ma) || !apply(1, k.mb) {
+			r.Inconclusive("two-clusters setup: objects not applied")
+			return
+		}
+		var trace []string
+		lim := [2]int32{k.ma, k.mb}
+		exact := func(c int, ctx string) []flowcontrol.FlowControl {
+			held := takeAll(hs[c], hot, int(lim[c]))
+			trace = append(trace, fmt.Sprintf("%s: %d sequential acquires under cluster %d's %q succeeded (limit %d)", ctx, len(held), c, hot, lim[c]))
+			r.Count("two_clusters_exact_probes", 1)
+			w := map[string]interface{}{"via": via, "limits": lim, "trace": append([]string(nil), trace...)}
+			switch {
+			case len(held) < int(lim[c]):
+				r.Violation("C05/isolation/two-clusters-same-schema-name/refused/"+ctx,
+					fmt.Sprintf("clusters A and B both have a schema %q (limits %d / %d): with nothing of cluster %d's schema in flight only %d of %d were admitted under it (%s)", hot, lim[0], lim[1], c, len(held), lim[c], ctx), w)
+			case len(held) > int(lim[c]):
+				r.Violation("C05/isolation/two-clusters-same-schema-name/over-admitted/"+ctx,
+					fmt.Sprintf("clusters A and B both have a schema %q (limits %d / %d): %d were admitted under cluster %d's (%s)", hot, lim[0], lim[1], len(held), c, ctx), w)
+			}
+			return held
+		}
+		free := func(c int, ctx string) {
+			got := takeAll(hs[c], "unnamed", 9)
+			if len(got) < 10 {
+				r.Violation("C05/isolation/two-clusters-same-schema-name/schema-less-policy-refused/"+ctx,
+					fmt.Sprintf("cluster %d's policy without schema had request %d refused (%s)", c, len(got)+1, ctx),
+					map[string]interface{}{"via": via, "limits": lim, "trace": append([]string(nil), trace...)})
+			}
+			releaseAllFC(got)
+		}
+		a := exact(0, "fresh")
+		b := exact(1, "other-cluster-exhausted")
+		free(1, "both-exhausted")
+		free(0, "both-exhausted")
+		releaseAllFC(a)
+		a = exact(0, "other-cluster-exhausted")
+		releaseAllFC(a)
+		releaseAllFC(b)
+		// resize A: B unchanged
+		lim[0] = k.ma + 2
+		if !apply(0, lim[0]) {
+			r.Inconclusive("two-clusters: resize not applied")
+			return
+		}
+		releaseAllFC(exact(1, "other-cluster-resized"))
+		releaseAllFC(exact(0, "self-resized"))
+		// delete A with B's requests in flight, re-create it
+		b = exact(1, "before-other-cluster-deleted")
+		del(0)
+		trace = append(trace, "cluster 0 deleted")
+		free(1, "other-cluster-deleted")
+		releaseAllFC(b)
+		releaseAllFC(exact(1, "other-cluster-deleted"))
+		lim[0] = k.ma
+		if !apply(0, lim[0]) {
+			r.Inconclusive("two-clusters: re-create not applied")
+			return
+		}
+		trace = append(trace, "cluster 0 created again")
+		b = exact(1, "other-cluster-recreated")
+		releaseAllFC(exact(0, "recreated-while-other-exhausted"))
+		releaseAllFC(b)
+		r.Eval(1)
+		r.Count("two_clusters_cases", 1)
+		r.Distinct(vkit.Hash64("twoclusters", fmt.Sprintf("%+v", k)))
 	})
 }
